@@ -1,0 +1,112 @@
+//go:build verif
+
+package dastard
+
+// Verification hooks for the Lancero ingest path (property C04).  Thin accessors only: every
+// function below calls the real launchLanceroReader / getNextBlock / distributeData /
+// ConfigureMixFraction; nothing is re-implemented here.
+
+import (
+	"time"
+
+	"github.com/usnistgov/dastard/lancero"
+)
+
+// VerifReadPeriod, when positive, replaces the Lancero reader's 50 ms polling period.
+var VerifReadPeriod time.Duration
+
+func verifReadPeriod(d time.Duration) time.Duration {
+	if VerifReadPeriod > 0 {
+		return VerifReadPeriod
+	}
+	return d
+}
+
+// VerifLancero is a LanceroSource prepared as Sample() would leave it for ONE card, without hardware.
+type VerifLancero struct {
+	ls *LanceroSource
+}
+
+// VerifLanceroBlock is the exported mirror of one dataBlock of a LanceroSource.
+type VerifLanceroBlock struct {
+	Closed     bool // the block channel was closed (reader stopped)
+	Data       [][]RawType
+	FirstFrame []int64
+	Dropped    []int
+	Signed     []bool
+	Ext        []int64
+	NSamp      int
+}
+
+// NewVerifLancero builds a single-card LanceroSource of ncols x nrows around the given card.
+// sampleRate is in Hz; firstFrame is the running frame counter; prevLastSampleNs is the time stamp
+// of the "previous block" (used by the dropped-frame estimate).
+func NewVerifLancero(card lancero.Lanceroer, ncols, nrows, nsamp int, sampleRate float64,
+	firstFrame int64, prevLastSampleNs int64) *VerifLancero {
+	ls := new(LanceroSource)
+	ls.name = "Lancero"
+	ls.nsamp = nsamp
+	ls.channelsPerPixel = 2
+	dev := &LanceroDevice{devnum: 0, nrows: nrows, ncols: ncols, frameSize: ncols * nrows * 4, card: card}
+	ls.devices = map[int]*LanceroDevice{0: dev}
+	ls.ncards = 1
+	ls.active = []*LanceroDevice{dev}
+	ls.nchan = ncols * nrows * 2
+	ls.sampleRate = sampleRate
+	ls.samplePeriod = time.Duration(roundint(1e9 / sampleRate))
+	ls.subframeDivisions = nrows
+	ls.updateChanOrderMap()
+	ls.mixRequests = make(chan *MixFractionObject, 10)
+	ls.currentMix = make(chan []float64, 10)
+	ls.processors = make([]*DataStreamProcessor, ls.nchan) // the reader only ranges over its length
+	ls.abortSelf = make(chan struct{})
+	ls.nextBlock = make(chan *dataBlock)
+	ls.buffersChan = make(chan BuffersChanType, 100)
+	ls.nextFrameNum = FrameIndex(firstFrame)
+	ls.previousLastSampleTime = time.Unix(0, prevLastSampleNs)
+	ls.lastread = ls.previousLastSampleTime
+	return &VerifLancero{ls: ls}
+}
+
+// Chan2Readout is the channel -> readout-order table.
+func (v *VerifLancero) Chan2Readout() []int { return append([]int{}, v.ls.chan2readoutOrder...) }
+
+// LaunchReader starts the real reader goroutine (replaces the buffers channel).
+func (v *VerifLancero) LaunchReader() { v.ls.launchLanceroReader() }
+
+// Abort closes abortSelf: the reader closes the buffers channel and exits.
+func (v *VerifLancero) Abort() { closeIfOpen(v.ls.abortSelf) }
+
+// Feed puts one demultiplexed (readout-order) buffer message where the reader would put it.
+func (v *VerifLancero) Feed(datacopies [][]RawType, lastSampleNs int64, totalBytes int, dataDrop bool) {
+	v.ls.buffersChan <- BuffersChanType{datacopies: datacopies, lastSampleTime: time.Unix(0, lastSampleNs),
+		totalBytes: totalBytes, dataDropDetected: dataDrop}
+}
+
+// BeginBlock starts the real getNextBlock goroutine (which also serves mix requests).
+func (v *VerifLancero) BeginBlock() { v.ls.getNextBlock() }
+
+// ConfigureMix is the real ConfigureMixFraction; a BeginBlock must be outstanding to serve it.
+func (v *VerifLancero) ConfigureMix(indices []int, fractions []float64) ([]float64, error) {
+	return v.ls.ConfigureMixFraction(&MixFractionObject{ChannelIndices: indices, MixFractions: fractions})
+}
+
+// CloseBuffers closes the buffers channel by hand (runs without a reader): the outstanding
+// getNextBlock goroutine stops the source and closes the block channel.
+func (v *VerifLancero) CloseBuffers() { close(v.ls.buffersChan) }
+
+// EndBlock waits for the block announced by BeginBlock.
+func (v *VerifLancero) EndBlock() VerifLanceroBlock {
+	b, ok := <-v.ls.nextBlock
+	if !ok || b == nil {
+		return VerifLanceroBlock{Closed: true}
+	}
+	out := VerifLanceroBlock{NSamp: b.nSamp, Ext: append([]int64{}, b.externalTriggerRowcounts...)}
+	for _, seg := range b.segments {
+		out.Data = append(out.Data, append([]RawType{}, seg.rawData...))
+		out.FirstFrame = append(out.FirstFrame, int64(seg.firstFrameIndex))
+		out.Dropped = append(out.Dropped, seg.droppedFrames)
+		out.Signed = append(out.Signed, seg.signed)
+	}
+	return out
+}
